@@ -109,3 +109,24 @@ Example C09_copy_keeps_previous_block_live_ex :
       | _ => False
       end).
 Proof. vm_compute. repeat split; auto; discriminate. Qed.
+
+(* K13, in the model: the per-block copies of a copy-mode BLOCK middleware (BlockMiddleware.transform: deepcopy(block) for
+   every block, then Library(blocks)) do NOT keep the link.  With the identity body on the library above the result has the
+   blocks [13; 14] and the wrapper 14 points at object 16, a private copy of the first block that is in no block list.
+   The heap model transcribes the shipped framework, so the defect of the unchanged tree shows here as a theorem. *)
+From BP Require Import Model.HeapBodies.
+Theorem C09_block_copy_mode_refuted_K13 :
+  exists h lib h' lib' bl xs w p,
+    wf_heap_b h = true
+    /\ transform_block_mw deepcopy_exec false probe_identity h lib = Some (h', lib')
+    /\ attr_list h' lib' A_blocks = Some (bl, xs) /\ In (PRef w) xs
+    /\ getattr h' w A_previous_block = Some (PRef p) /\ ~ In (PRef p) xs.
+Proof.
+  exists ex_lib_heap, 1%nat.
+  destruct (transform_block_mw deepcopy_exec false probe_identity ex_lib_heap 1) as [[h' lib']|] eqn:E;
+    [|vm_compute in E; discriminate].
+  exists h', lib', 17%nat, [PRef 13%nat; PRef 14%nat], 14%nat, 16%nat.
+  vm_compute in E. inversion E; subst. vm_compute.
+  repeat split; auto. intros [H|[H|[]]]; discriminate.
+Qed.
+Print Assumptions C09_block_copy_mode_refuted_K13.
